@@ -211,7 +211,7 @@ def c06(A, ctx, tier):
     cox.r_cox(A, ctx, {}, parts=("grad", "adj", "risk"))
     kernels.r_kernel_eq(A, ctx, dict(floor=12), rule="R-GRAD-EQ",
                         select=lambda f: "construct_grad" in f.name)
-    kernels.r_accessor_eq(A, ctx, dict(floor=20))
+    kernels.r_accessor_eq(A, ctx, dict(floor=40))
     blockpen.r_prox_datafit(A, ctx, dict(floor=15))
     ctx.assume("Cox: the outer composition (gradient == gradient_sparse == X.T @ raw_grad) is decided "
                "for all shapes with the risk-set recursions as opaque operators; the recursions "
@@ -336,6 +336,8 @@ def c20(A, ctx, tier):
     kernels.r_fixpoint(A, ctx, dict(floor=4), rule="R-FIXPOINT-BOUNDS")
     kernels.r_kernel_eq(A, ctx, dict(floor=40), rule="R-KERNEL-BOUNDS")
     kernels.r_csc_helpers(A, ctx, dict(floor=16), rule="R-CSC-BOUNDS")
+    kernels.r_accessor_eq(A, ctx, dict(floor=40), rule="R-ACCESSOR-BOUNDS")
+    pairing.r_pair_eq(A, ctx, dict(floor=30), rule="R-PAIR-BOUNDS")
     misc.r_initialize(A, ctx, dict(floor=6))
     ctx.assume("value-dependent indices (entries of user-supplied grp_indices / CSC indices being "
                "in range) are an input contract and not decided")
